@@ -386,6 +386,13 @@ func (f File) Generate(inputWriter io.Writer, settings GenerateSettings) error {
 	imports := []string{}
 	potentialImports := []string{}
 	settings.importTypeAliases = make(map[string]string)
+	// f is a copy of the caller's File but shares its slices' backing arrays; clip the
+	// capacities so that appending imported definitions never writes into them.
+	f.Consts = f.Consts[:len(f.Consts):len(f.Consts)]
+	f.Structs = f.Structs[:len(f.Structs):len(f.Structs)]
+	f.Unions = f.Unions[:len(f.Unions):len(f.Unions)]
+	f.Messages = f.Messages[:len(f.Messages):len(f.Messages)]
+	f.Enums = f.Enums[:len(f.Enums):len(f.Enums)]
 	switch settings.ImportGenerationMode {
 	case ImportGenerationModeSeparate:
 		for _, imp := range settings.imported {
